@@ -141,6 +141,36 @@ func (a *Analysis) lengthLowerBound(x ssa.Value, at ssa.Instruction) (int64, str
 			}
 		}
 	}
+	// a parameter is at least as long as its shortest argument (every static call site in the analysed set)
+	if prm, isP := x.(*ssa.Parameter); isP && lb == 0 && a.lenDepth < 3 {
+		sites := a.callers[prm.Parent()]
+		idx := -1
+		for i, q := range prm.Parent().Params {
+			if q == prm {
+				idx = i
+			}
+		}
+		if len(sites) > 0 && idx >= 0 && !a.entry[prm.Parent()] {
+			best := int64(1 << 30)
+			a.lenDepth++
+			for _, site := range sites {
+				args := site.Common().Args
+				if idx >= len(args) {
+					best = 0
+					break
+				}
+				in, _ := site.(ssa.Instruction)
+				l, _ := a.lengthLowerBound(args[idx], in)
+				if l < best {
+					best = l
+				}
+			}
+			a.lenDepth--
+			if best > 0 && best < 1<<30 {
+				return best, "D6 every caller passes a list of at least that length"
+			}
+		}
+	}
 	return lb, why
 }
 
